@@ -5,7 +5,9 @@ import (
 	"fmt"
 	"net"
 	"os"
+	"runtime"
 	"sync"
+	"sync/atomic"
 	"testing"
 	"time"
 
@@ -28,7 +30,12 @@ func TestRace(t *testing.T) {
 	for r := 0; r < rounds; r++ {
 		raceRound(t, r)
 	}
+	if n := readFails.Load(); n > 0 {
+		fmt.Printf("VERIF-READFAIL-TOTAL %d\n", n)
+	}
 }
+
+var readFails atomic.Int64
 
 func raceRound(t *testing.T, round int) {
 	sc := &Scenario{Engine: "legacy", Blocks: tree(6, 2, 2)}
@@ -37,7 +44,9 @@ func raceRound(t *testing.T, round int) {
 	config.Lookup = func(string) ([]net.IP, error) { return nil, errors.New("no dns") }
 	config.Dial = func(string, string, time.Duration) (net.Conn, error) { return nil, errors.New("no dial") }
 	config.Checkpoints = []chaincfg.Checkpoint{{Height: 0, Hash: chaincfg.MainNetParams.GenesisHash}}
-	rig := core.NewRig(core.RigOpts{})
+	// (connection pool as the service has it: readers and the ingesting sync manager use different
+	// database connections)
+	rig := core.NewRig(core.RigOpts{Pool: true})
 	defer rig.Close()
 	peers := map[*legacypeer.Peer]*legacypeer.SyncState{}
 	// production wiring: the same map goes to the network service and to the sync manager
@@ -60,6 +69,30 @@ func raceRound(t *testing.T, round int) {
 	stop := make(chan struct{})
 	var wg sync.WaitGroup
 	hdr := adminHeader(rig2)
+	// watchdog: every reader loop and the driver loop tick a counter; if nothing ticks for two
+	// minutes (a round takes seconds) the goroutines are dumped and the process ends with a marker the
+	// driver classifies: application goroutines waiting for a lock = a deadlock of the code under test
+	var progress atomic.Int64
+	roundDone := make(chan struct{})
+	defer close(roundDone)
+	go func() {
+		last, lastChange := int64(-1), time.Now()
+		for {
+			select {
+			case <-roundDone:
+				return
+			case <-time.After(2 * time.Second):
+			}
+			if p := progress.Load(); p != last {
+				last, lastChange = p, time.Now()
+			} else if time.Since(lastChange) > 2*time.Minute {
+				buf := make([]byte, 16<<20)
+				n := runtime.Stack(buf, true)
+				fmt.Printf("\nVERIF-STALL round %d: no progress for %v\n%s\nVERIF-STALL-END\n", round, time.Since(lastChange).Round(time.Second), buf[:n])
+				os.Exit(3)
+			}
+		}
+	}()
 	for k := 0; k < 3; k++ {
 		wg.Add(1)
 		go func(k int) {
@@ -70,13 +103,25 @@ func raceRound(t *testing.T, round int) {
 					return
 				default:
 				}
+				progress.Add(1)
 				switch k {
 				case 0:
 					api.Do("GET", "/api/v1/network/peer", nil, hdr)
 					api.Do("GET", "/api/v1/network/peer/count", nil, hdr)
 				case 1:
-					api.Do("GET", "/api/v1/chain/tip/longest", nil, hdr)
-					api.Do("GET", "/api/v1/chain/tip", nil, hdr)
+					// reads of the headers table while headers are being ingested must simply work
+					for _, q := range []string{"/api/v1/chain/tip/longest", "/api/v1/chain/tip", "/api/v1/chain/header/byHeight?height=0"} {
+						r := api.Do("GET", q, nil, hdr)
+						if r.Code != 200 {
+							// (asked again at once: only a failure that repeats is counted)
+							r = api.Do("GET", q, nil, hdr)
+						}
+						if r.Code != 200 {
+							if readFails.Add(1) <= 3 {
+								fmt.Printf("VERIF-READFAIL GET %s answered %d %s\n", q, r.Code, string(r.Body))
+							}
+						}
+					}
 				default:
 					_ = rig2.Svc.Network.GetPeersCount()
 					_ = rig2.Svc.Headers.GetTipHeight()
@@ -84,6 +129,30 @@ func raceRound(t *testing.T, round int) {
 			}
 		}(k)
 	}
+	// a second source of headers (as the experimental engine's peers are): a side chain of 300
+	// headers stored while the sync manager and the readers are at work
+	wg.Add(1)
+	go func() {
+		defer wg.Done()
+		prev := core.GenesisRaw().Hash()
+		for i := 1; i <= 300; i++ {
+			select {
+			case <-stop:
+				return
+			default:
+			}
+			var m core.Hash32
+			m[0], m[1], m[2] = byte(i), byte(i>>8), 0xcc
+			raw := core.RawHeader{Version: 1, Prev: prev, Merkle: m, Time: 1600000000 + uint32(i), Bits: core.BitsLight, Nonce: uint32(round)}
+			if res := core.SafeAdd(rig2.Svc.Chains, raw.Source()); res.Code() != "stored" && res.Code() != "duplicate" {
+				if readFails.Add(1) <= 3 {
+					fmt.Printf("VERIF-READFAIL Add of side-chain header %d answered %s: %v\n", i, res.Code(), res.Err)
+				}
+			}
+			prev = raw.Hash()
+			progress.Add(1)
+		}
+	}()
 	connect := func(i int) {
 		a, b := net.Pipe()
 		nodes[i].attach(b)
@@ -111,8 +180,11 @@ func raceRound(t *testing.T, round int) {
 	}
 	time.Sleep(20 * time.Millisecond)
 	close(stop)
+	// (from here on only completion counts as progress)
 	wg.Wait()
+	progress.Add(1)
 	_ = vs.Shutdown()
+	progress.Add(1)
 }
 
 func adminHeader(r *core.Rig) map[string]string {
